@@ -10,7 +10,7 @@ ID = "C04"
 RULE = (
     "case = backend x 2..3 populated buckets on one store x history of 1..20 operations on a chosen bucket A with unrestricted arguments: event ids that are "
     "live in A, live in another bucket, dead, never issued, negative or huge; events whose timestamps/end instants are copied from events of other buckets; "
-    "operations insert (with/without id), insert_many (with/without ids, or with an unserialisable event so that the call is rejected half-way), replace, replace_last, delete, update_bucket(A), delete_bucket(A)+re-create; interleaved with the harness's own inserts into OTHER buckets, and with no read in between about half the steps, so that those inserts are still buffered when the next operation on A runs. Oracle: pure "
+    "operations insert (with/without id), insert_many (with/without ids, or with an unserialisable event so that the call is rejected half-way), replace and replace_last (the event handed over may itself carry any id, another bucket's included), delete, update_bucket(A), delete_bucket(A)+re-create; interleaved with the harness's own inserts into OTHER buckets, and with no read in between about half the steps, so that those inserts are still buffered when the next operation on A runs. Oracle: pure "
     "frame condition, no semantic model: the API dump (metadata + sorted (id, instant, duration, data)) of every bucket other than A is identical before and after "
     "each checked stretch of operations (single operations about half the time); an exception counts as 'rejected' and is fine provided the frame still holds. Non-trivial = an operation used an id that is live in "
     "another bucket, or an event whose end instant equals that of an event in another bucket."
@@ -52,6 +52,8 @@ def strategy(draw, tier="quick"):
         if kind in ("insert", "replace_last"):
             op["e"] = draw(_ev())
             op["copy_from"] = draw(st.one_of(st.none(), st.integers(0, 20)))
+            if kind == "replace_last":  # the event handed over may itself carry an id (it was read from somewhere): any id, another bucket's included
+                op["carry"] = draw(st.one_of(st.none(), st.none(), _idsel()))
         elif kind == "insert_id":
             op["e"] = draw(_ev())
             op["id"] = draw(_idsel())
@@ -61,6 +63,7 @@ def strategy(draw, tier="quick"):
             op["e"] = draw(_ev())
             op["id"] = draw(_idsel())
             op["copy_from"] = draw(st.one_of(st.none(), st.integers(0, 20)))
+            op["carry"] = draw(st.one_of(st.none(), st.none(), _idsel()))
         elif kind == "delete":
             op["id"] = draw(_idsel())
         elif kind == "update_bucket":
@@ -179,11 +182,11 @@ def run_case(case):
                 elif kind == "insert_many":
                     b.insert([_mk(Event, it["e"], None if it["id"] is None else resolve(it["id"])) for it in op["items"]])
                 elif kind == "replace":
-                    ev = _mk(Event, op["e"], None, cp(op["copy_from"]))
+                    ev = _mk(Event, op["e"], None if op.get("carry") is None else resolve(op["carry"]), cp(op["copy_from"]))
                     coincide(ev)
                     b.replace(resolve(op["id"]), ev)
                 elif kind == "replace_last":
-                    ev = _mk(Event, op["e"], None, cp(op["copy_from"]))
+                    ev = _mk(Event, op["e"], None if op.get("carry") is None else resolve(op["carry"]), cp(op["copy_from"]))
                     coincide(ev)
                     b.replace_last(ev)
                 elif kind == "delete":
